@@ -27,7 +27,8 @@ def check(prog, run):
     prime_layouts(prog)
     I = prog.I
     _sc = prog.cls(CMD_MOD, "SCSICommand")
-    base_mbe = _sc.injected.get("MissingBlocksizeException") if hasattr(_sc, "injected") else None
+    base_mbe = prog.read_class_attr(_sc, "MissingBlocksizeException")
+    base_mbe = base_mbe if isinstance(base_mbe, ClassVal) else None
     run.explanation = ("refusals are decided on the abstract interpretation of constructors, validators and facade methods with "
                        "the offending input fixed and everything else symbolic: every path must end in the specific exception, "
                        "before SCSICommand.__init__ has run (no partially initialised command) and with zero hand-overs to the "
